@@ -20,6 +20,8 @@ CLAIMED = {
          "MarshalText/String delegation through the global Formatter variable (one-line methods, exercised by the harness)"),
  "C03": ("the published BNF as an independent predicate; shape_iff / accepts_iff (acceptance ⇔ non-empty ∧ limit ∧ prefix rule ∧ BNF ∧ numbers < 2^64), unique decomposition, fields, reproduce (format ∘ parse = id byte for byte), overflow_typed, invalid_iff, error classes, never_panic, entry points and their generated constants, valid_iff_roundtrip under the (forced, explicit) length hypothesis",
          "Go regexp (modelled by the scanner; exhaustive to length 6/8 over the alphabet in the harness); the zero result next to an error (asserted by the harness on every parse op)"),
+ "C04": ("text_roundtrip, json_roundtrip (object, string and number forms through the modelled encoding/json tokenizer), string_roundtrip, pretty_roundtrip for every s < 2^64 and all 8 switch settings under the generated default rules/limits (and any limit the output fits, any MaxObjectKeys that is 0 or ≥ 2); marshal_length_le (every output ≤ 43 bytes ≤ default limit)",
+         "nesting in encoding/json containers (struct fields, slices, maps) — real encoding/json, harness only; the tokenizer model itself is validated by correspondence (json.tokens lines)"),
  "C06": ("compare_is_spec: the comparator equals an independent statement of SemVer §11 on all versions outside the excluded region (validity not needed); the excluded region is exactly the property's; the specification's example chain in both spec and model; entry points = parse then compare",
          "Go regexp used by Valid/isNumeric (modelled by predicates, validated by correspondence)"),
  "C10": ("accepts_iff: acceptance ⇔ limit ∧ (empty ∧ rule) ∨ upper-cased text = M^k ++ three group forms, value = sum mod 2^64 (no mod needed below 2^54 bytes); case_invariant; valid_iff_parse; error classes; no panic",
